@@ -1227,6 +1227,9 @@ pub fn run_case(tier: &str, seed: u64, idx: u64) -> CaseOut {
                 out.add("background_panics_on_damaged_input", 1);
             }
             out.add(&format!("outcome.{}.{}", class.name(), outcome), 1);
+            if what.starts_with("index handle redirected") {
+                out.add(&format!("footer_handle_redirections.{outcome}"), 1);
+            }
             if outcome != "harmless" {
                 out.nontrivial(format!("{}/{}/{}", class.name(), structure, outcome));
             }
